@@ -96,6 +96,8 @@ typedef struct {
 /// [4 KiB, max_dict].
 void gen_cfg(vrng *r, vcfg *c, unsigned flags, uint32_t max_dict);
 void vcfg_free(vcfg *c);
+/// Move a configuration to another object (re-points the embedded option pointers).
+void vcfg_move(vcfg *dst, vcfg *src);
 lzma_check gen_check(vrng *r);
 
 ///////////////
